@@ -15,7 +15,7 @@ func init() { register("C20", c20{}) }
 func c20Body(r *rand.Rand, tag int, ln int) []byte {
 	b := make([]byte, ln)
 	r.Read(b)
-	switch r.Intn(6) {
+	switch r.Intn(8) {
 	case 0:
 		for i := range b {
 			b[i] = 0xff
@@ -31,6 +31,15 @@ func c20Body(r *rand.Rand, tag int, ln int) []byte {
 	case 3:
 		if ln >= 1 {
 			b[0] = 0x20
+		}
+	case 4: // the magic letters somewhere else than in the format identifier (another registration in front of them)
+		if ln >= 5 {
+			copy(b, []string{"HDMV", "CUEI", "AC-3", "\xff\xff\xff\xff", "DOVD", "\x00\x00\x00\x00"}[r.Intn(6)])
+			copy(b[1+r.Intn(ln-4):], "DOVI")
+		}
+	case 5: // near misses of the magic letters
+		if ln >= 4 {
+			copy(b, []string{"DOVJ", "dovi", "IVOD", "DOV\x00", "\x00DOV", "EOVI", "DOVI"}[r.Intn(7)])
 		}
 	}
 	if tag == 14 && ln >= 3 {
@@ -70,7 +79,7 @@ func (c20) Gen(tier string, seed int64, emit func([]Ev)) {
 			}
 			if tag == 14 || tag == 10 || tag == 127 || tag == 5 || tag == 176 {
 				for k := 0; k < 40; k++ {
-					emit([]Ev{{"op": "desc", "tag": tag, "body": B(c20Body(r, tag, minLen+r.Intn(9)))}})
+					emit([]Ev{{"op": "desc", "tag": tag, "body": B(c20Body(r, tag, minLen+r.Intn(9)+k%2*r.Intn(24)))}})
 				}
 			}
 		}
